@@ -1,9 +1,10 @@
 use crate::engine::Check;
 
+pub mod c01;
 pub mod c18;
 
 pub fn all() -> Vec<&'static dyn Check> {
-    vec![&c18::C18]
+    vec![&c01::C01, &c18::C18]
 }
 
 pub fn lookup(id: &str) -> Option<&'static dyn Check> {
